@@ -63,10 +63,36 @@ def gen_cases(seed, budget):
             arts.append((bytes([i + 1]) * 20, {'meta': meta, 'build': ({'date': k} if k is not None else {})}))
         yield arts, rnd.choice([None, 1, 2, 3, 4]), rnd.random() < .5, rnd.random() < .8
 
+def multi_expression_case(rnd):
+    """two expressions over one archive (distinct keys, so every LIMIT selection is unique): result must be the union"""
+    from bob.cmds.archive import query
+    n = rnd.randint(3, 6)
+    keys = rnd.sample(['a', 'b', 'c', 'd', 'e', 'f', 'g'], n)
+    arts = [(bytes([i + 1]) * 20, {'meta': {'sel': '1', 'k': keys[i], 'rel': rnd.choice(['yes', 'no'])}, 'build': {'date': keys[i]}}) for i in range(n)]
+    rnd.shuffle(arts)
+    lim = rnd.randint(1, 2); asc = rnd.random() < .5
+    exprs = ['meta.sel == "1" LIMIT %d ORDER BY meta.k %s' % (lim, 'ASC' if asc else 'DESC'), 'meta.rel == "yes"']
+    if rnd.random() < .5: exprs.reverse()
+    res = query(FakeScanner(arts), exprs)
+    srt = sorted(arts, key=lambda a: a[1]['meta']['k'], reverse=not asc)
+    expect = {b for b, d in srt[:lim]} | {b for b, d in arts if d['meta']['rel'] == 'yes'}
+    if set(res) != expect:
+        return {'kind': 'union-of-expressions', 'archive': [(b.hex(), d) for b, d in arts], 'expressions': exprs,
+                'observed_retained': sorted(x.hex() for x in res), 'expected': sorted(x.hex() for x in expect)}
+    return None
+
 def replay(rep):
+    import time
     seed = int(os.environ.get('VERIF_SEED', '0') or 0)
+    budget = float(os.environ.get('VERIF_BOUNDED_BUDGET', '30')); t0 = time.time()
     tried = 0
+    rnd = random.Random(seed)
+    for _ in range(150):
+        tried += 1
+        w = multi_expression_case(rnd)
+        if w is not None: return {'reproduced': True, 'tried': tried, 'witness': w}
     for arts, limit, asc, of in gen_cases(seed, 3000):
+        if time.time() - t0 > budget: break
         tried += 1
         try:
             ok, why, expr, res = run_case(arts, limit, asc, of)
@@ -78,3 +104,130 @@ def replay(rep):
                     'witness': {'archive': [(b.hex(), d) for b, d in arts], 'expression': expr,
                                 'observed_retained': sorted(x.hex() for x in res), 'why': why}}
     return {'reproduced': False, 'tried': tried, 'detail': 'no concrete archive up to the search bound violates the documented retention meaning'}
+
+# ---------------------------------------------------------------------------------------------
+# archive level: real artifacts on disk, real `bob archive` commands, histories of adding/removing
+# artifacts between scans; the result must not depend on the state of the scan index (warm/stale/fresh)
+# and must equal "everything except the selected artifacts and what they transitively reference".
+import contextlib, gzip, io, json, tarfile, tempfile, shutil
+
+def _hex(n): return '{:02x}'.format(n) * 20
+def _apath(h): return os.path.join(h[0:2], h[2:4], h[4:] + '-1.tgz')
+def _record(h, pkg, date):
+    return {'variant-id': '11' * 20, 'build-id': h, 'artifact-id': h[::-1], 'result-hash': '22' * 20,
+            'meta': {'package': pkg, 'recipe': pkg, 'step': 'dist'},
+            'build': {'sysname': 'Linux', 'nodename': 'n', 'release': '1', 'version': '1', 'machine': 'x', 'date': date},
+            'env': '', 'scms': [], 'dependencies': {}}
+def _write(root, rec, refs):
+    rec = dict(rec)
+    if refs: rec['dependencies'] = {'args': [r['artifact-id'] for r in refs]}
+    audit = gzip.compress(json.dumps({'artifact': rec, 'references': list(refs)}).encode())
+    name = os.path.join(root, _apath(rec['build-id'])); os.makedirs(os.path.dirname(name), exist_ok=True)
+    with gzip.open(name, 'wb') as gzf:
+        with tarfile.open(None, 'w', fileobj=gzf, format=tarfile.PAX_FORMAT, pax_headers={'bob-archive-vsn': '1'}) as tar:
+            info = tarfile.TarInfo('meta/audit.json.gz'); info.size = len(audit); tar.addfile(info, io.BytesIO(audit))
+            info = tarfile.TarInfo('content'); info.type = tarfile.DIRTYPE; tar.addfile(info)
+def _listing(root):
+    out = set()
+    for dp, ds, fs in os.walk(root):
+        for f in fs:
+            if f.endswith('-1.tgz'): out.add(os.path.relpath(os.path.join(dp, f), root))
+    return out
+def _bob(*args):
+    from bob.cmds.archive import doArchive
+    out = io.StringIO()
+    with contextlib.redirect_stdout(out), contextlib.redirect_stderr(io.StringIO()):
+        doArchive(['-l'] + list(args), None)
+    return [l.strip() for l in out.getvalue().splitlines() if l.strip() and not l.startswith('archive ')]
+
+def archive_history(rnd, steps=10, template=None):
+    root = tempfile.mkdtemp(prefix='c19-'); old = os.getcwd(); os.chdir(root)
+    try:
+        script = None
+        if template is not None:
+            # directed histories: (1) reference to an artifact that is uploaded later, (2) artifact removed behind
+            # the index's back, (3) artifact re-uploaded with different references
+            script = {1: [('add', 0), ('add', 3), ('clean', 0), ('add', 1), ('check', 0)],
+                      2: [('add', 0), ('add', 1), ('scan',), ('remove', 1), ('check', 0), ('check', 1)],
+                      3: [('add', 0), ('add', 1), ('add', 2), ('scan',), ('readd', 0), ('check', 0)]}[template]
+        pkgs = ['app', 'lib', 'tool', 'junk']
+        recs = {}; refs = {}
+        for i in range(1, 6):
+            h = _hex(0xa0 + i); recs[h] = _record(h, rnd.choice(pkgs), '2024-0%d-01' % i)
+        ids = sorted(recs)
+        for h in ids: refs[h] = [recs[x] for x in rnd.sample([y for y in ids if y != h], rnd.randint(1, 2))] if rnd.random() < .7 else []
+        present = set(); log = []
+        if script is not None:
+            # artifact 0 ('app') references 1 ('lib') and 2 ('tool'); 3 is junk
+            for i, p in enumerate(['app', 'lib', 'tool', 'junk']): recs[ids[i]]['meta']['package'] = recs[ids[i]]['meta']['recipe'] = p
+            refs[ids[0]] = [recs[ids[1]], recs[ids[2]]]; refs[ids[1]] = []; refs[ids[2]] = []; refs[ids[3]] = []
+            steps = len(script)
+        for step in range(steps):
+            op = rnd.choice(['add', 'add', 'add', 'remove', 'clean', 'clean', 'scan', 'check'])
+            forced = None; forced_expr = None
+            if script is not None:
+                op = script[step][0]
+                if op in ('add', 'remove', 'readd'): forced = ids[script[step][1]]
+                if op in ('clean', 'check'): forced_expr = 'meta.package == "%s"' % recs[ids[script[step][1]]]['meta']['package']
+                if op == 'readd':
+                    refs[forced] = [recs[ids[1]]]; op = 'add'
+            if op == 'add':
+                h = forced or rnd.choice(ids); _write(root, recs[h], refs[h]); present.add(h); log.append(('add', h[:2], [r['build-id'][:2] for r in refs[h]]))
+            elif op == 'remove' and present:
+                h = forced or rnd.choice(sorted(present)); os.unlink(_apath(h)); present.discard(h); log.append(('remove-externally', h[:2]))
+            elif op == 'scan': _bob('scan'); log.append(('scan',))
+            else:
+                expr = forced_expr or 'meta.package == "%s"' % rnd.choice(pkgs)
+                if forced_expr is None and rnd.random() < .4: expr += ' LIMIT 1'
+                # oracle: selection and closure computed from the audit data of the artifacts that are present
+                sel = [h for h in sorted(present) if recs[h]['meta']['package'] in expr]
+                if 'LIMIT' in expr: sel = sorted(sel, key=lambda h: recs[h]['build']['date'], reverse=True)[:1]
+                keep = set(sel); todo = list(sel)
+                while todo:
+                    h = todo.pop()
+                    if h not in present: continue      # references of an artifact that is not in the archive are unknown
+                    for r in refs[h]:
+                        b = r['build-id']
+                        if b not in keep: keep.add(b); todo.append(b)
+                expect_del = {_apath(h) for h in present if h not in keep}
+                warm = set(_bob('clean', '--dry-run', expr))
+                if _listing(root) != {_apath(h) for h in present}:
+                    return {'kind': 'dry-run-deleted', 'history': log, 'expression': expr}
+                if os.path.exists('.bob-archive.sqlite3'): os.rename('.bob-archive.sqlite3', '.warm')
+                fresh = set(_bob('clean', '--dry-run', expr))
+                os.unlink('.bob-archive.sqlite3')
+                if os.path.exists('.warm'): os.rename('.warm', '.bob-archive.sqlite3')
+                log.append(('clean --dry-run', expr))
+                if warm != fresh:
+                    return {'kind': 'index-dependent', 'history': log, 'expression': expr, 'warm_index_would_delete': sorted(warm), 'fresh_index_would_delete': sorted(fresh)}
+                if fresh != expect_del:
+                    return {'kind': 'retention-meaning', 'history': log, 'expression': expr, 'would_delete': sorted(fresh), 'expected': sorted(expect_del), 'present': sorted(x[:2] for x in present), 'selected': [x[:2] for x in sel], 'keep': sorted(x[:2] for x in keep)}
+                found = set(_bob('find', expr))
+                if found != {_apath(h) for h in sel}:
+                    return {'kind': 'find-lists-selected', 'history': log, 'expression': expr, 'found': sorted(found), 'expected': sorted(_apath(h) for h in sel)}
+                if op == 'clean':
+                    _bob('clean', expr); present = {h for h in present if h in keep}; log.append(('clean', expr))
+                    if _listing(root) != {_apath(h) for h in present}:
+                        return {'kind': 'clean-result', 'history': log, 'expression': expr, 'left': sorted(_listing(root)), 'expected': sorted(_apath(h) for h in present)}
+        return None
+    finally:
+        os.chdir(old); shutil.rmtree(root, ignore_errors=True)
+
+_single_replay = replay
+def replay(rep):
+    import time
+    seed = int(os.environ.get('VERIF_SEED', '0') or 0)
+    budget = float(os.environ.get('VERIF_BOUNDED_BUDGET', '30')); t0 = time.time()
+    r = _single_replay(rep)
+    if r.get('reproduced'): return r
+    rnd = random.Random(seed + 1); n = 0
+    while time.time() - t0 < budget * 2 and n < 400:
+        n += 1
+        try: w = archive_history(rnd, template=n if n <= 3 else None)
+        except Exception as ex:
+            import traceback
+            w = {'kind': 'internal-exception', 'observed': repr(ex), 'trace': traceback.format_exc()[-600:]}
+        if w is not None: return {'reproduced': True, 'tried': r.get('tried', 0) + n, 'witness': w}
+    r['tried'] = r.get('tried', 0) + n
+    r['detail'] = (r.get('detail') or '') + '; %d archive histories (warm vs fresh index, closure oracle) agree' % n
+    return r
